@@ -45,7 +45,7 @@ type Spec struct {
 // CaseResult is what the worker reports for one case.
 type CaseResult struct {
 	OK         bool           `json:"ok"`
-	Kind       string         `json:"kind,omitempty"` // property | correspondence | crash | harness
+	Kind       string         `json:"kind,omitempty"`   // property | correspondence | crash | harness
 	Oracle     string         `json:"oracle,omitempty"` // response | batch | leak | deadlock | crash | model | harness
 	What       string         `json:"what,omitempty"`
 	FindingKey string         `json:"finding_key,omitempty"`
